@@ -158,6 +158,30 @@ Proof.
   - intros fuel x q Hq. eapply set_prox_refines; eauto.
 Qed.
 
+(* every segment's length is unchanged: the effective proximal point and the distal point are *)
+Lemma seg_length_preserved : forall c0 c, all_ok c0 -> seg_inv c0 c ->
+  forall s, In s c0 -> seg_length (fuel_of c) c (sid s) = seg_length (fuel_of c0) c0 (sid s).
+Proof.
+  intros c0 c Hok [Hupd Href] s Hs.
+  assert (Hfu : fuel_of c = fuel_of c0) by (unfold fuel_of; now rewrite (cell_upd_length c0 c Hupd)).
+  destruct (Hok s Hs) as [q Hq]. pose proof (Href _ _ _ Hq) as Hqc. rewrite <- Hfu in Hqc.
+  (* the first segment with this id, in both cells *)
+  assert (Hfind : exists s1, find_seg c (sid s) = Some s1).
+  { pose proof Hqc as H. unfold fuel_of in H. simpl in H. unfold get_segment in H.
+    destruct (find_seg c (sid s)); [eauto|discriminate]. }
+  destruct Hfind as [s1 Hs1].
+  destruct (upd_find c0 c0 c (sid s) s1 Hupd Hs1) as [s0 [Hs0 [Hid [Hpar [Hdist Hprox]]]]].
+  unfold seg_length, get_segment. rewrite Hs1, Hs0. cbn [bind]. rewrite Hdist.
+  assert (Hq0 : actual_prox (fuel_of c0) c0 (sid s) = Ok q) by exact Hq.
+  assert (Hsame : (match sprox s1 with Some p => Ok p | None => actual_prox (fuel_of c) c (sid s) end)
+                  = (match sprox s0 with Some p => Ok p | None => actual_prox (fuel_of c0) c0 (sid s) end)).
+  { destruct Hprox as [Heq|[Hnone [q' [Hq' Hact]]]].
+    - rewrite Heq. destruct (sprox s0); auto. now rewrite Hqc, Hq0.
+    - rewrite Hq', Hnone. assert (Hids : sid s0 = sid s) by (apply find_seg_some in Hs0; tauto).
+      rewrite Hids in Hact. congruence. }
+  now rewrite Hsame.
+Qed.
+
 (* ------------------------------------------------------------------ group bookkeeping *)
 Open Scope string_scope.
 
@@ -262,6 +286,7 @@ Qed.
 Theorem create_branches_preserves : forall c gs root reorder st',
   all_ok c -> create_branches c gs root reorder false = Ok st' ->
   cell_upd c (st_segs st') /\
+  (forall s, In s c -> seg_length (fuel_of (st_segs st')) (st_segs st') (sid s) = seg_length (fuel_of c) c (sid s)) /\
   (forall g, In g gs -> gen_name (gid g) = false -> In g (st_groups st')) /\
   (reorder = false -> keep gs (st_groups st')).
 Proof.
@@ -287,7 +312,8 @@ Proof.
     destruct Hst0 as [Hs Hg]. split.
     - unfold add_unbranched_group. destruct (existsb _ _); simpl; exact Hs.
     - eapply keep_trans; [exact Hg|apply keep_add_group]. }
-  destruct Hst1 as [[Hupd _] Hkeep]. split; [exact Hupd|]. split.
+  destruct Hst1 as [Hseg1 Hkeep]. split; [exact (proj1 Hseg1)|].
+  split; [intros s0 Hs0; now apply seg_length_preserved|]. split.
   - intros g Hg Hn. apply In_nth_error in Hg. destruct Hg as [i Hi]. pose proof (Hkeep i g Hi Hn) as Hi'.
     apply nth_error_In in Hi'. destruct reorder; auto.
     eapply Permutation_in; [apply Permutation_sym, reorder_groups_perm|exact Hi'].
